@@ -33,10 +33,11 @@ ASSUMPTIONS = [
     "trees outside the enumerated families (arity > 3, depth > 4, more than 4 distinct leaves) are not covered",
 ]
 BOUNDS = {
-    "quick": "depth<=1: all kinds, 4 leaves, arity 0-3; depth 2: all kinds, arity<=2 over the 106 depth<=1 trees on 3 leaves "
-    "(x5 realisations); depth 2 arity 3 over 30 all-of/any-of subtrees on 2 leaves; depth 3 all-of/any-of chains over 11.5k depth<=2 subtrees",
-    "thorough": "depth 2 arity<=2 over the 172 depth<=1 trees on 4 leaves (x5 realisations); depth 2 arity 3 over the 56 depth<=1 trees on 2 leaves; "
-    "depth 3 arity 2 (11.5k depth<=2 subtrees x 53 depth<=1 subtrees, both orders); depth 4 all-of/any-of chains",
+    "quick": "724k (tree, realisation) evaluations: depth<=1: all kinds + Negate, 4 leaves, arity 0-3 (x5 realisations); depth 2: all kinds, arity 1 (x5) and "
+    "arity 2 (x3 realisations) over the 106 depth<=1 trees on 3 leaves; depth 2 arity 3 over 30 all-of/any-of subtrees on 2 leaves; depth 3 all-of/any-of "
+    "roots, arity 1 over 11.5k depth<=2 subtrees and arity 2 with a leaf sibling (both orders)",
+    "thorough": "9.89M evaluations: depth 2 arity<=2 over the 172 depth<=1 trees on 4 leaves (x5 realisations); depth 2 arity 3 over the 56 depth<=1 trees on 2 leaves (x2); "
+    "depth 3 arity 2 (11.5k depth<=2 subtrees x 53 depth<=1 subtrees, both orders); depth 4 all-of/any-of chains (45.8k depth-3 subtrees, arity 1 and arity 2 with a leaf sibling)",
 }
 
 # ----------------------------------------------------------------------------------------------
@@ -108,7 +109,7 @@ SPACES = {
         ("d1a2", ALL, False, ["L4", "L4"], ALL_REALS),
         ("d1a3", ALL, False, ["L4", "L4", "L4"], ALL_REALS),
         ("d2a1", ALL, True, ["C1_3"], ALL_REALS),
-        ("d2a2", ALL, False, ["C1_3", "C1_3"], ALL_REALS),
+        ("d2a2", ALL, False, ["C1_3", "C1_3"], ["pkg", "atom", "val"]),
         ("d2a3", ALL, False, ["C1_2ao", "C1_2ao", "C1_2ao"], ["pkg"]),
         ("d3a1", AO, False, ["C2n"], ["pkg"]),
         ("d3a2l", AO, False, ["C2n", "L02"], ["pkg"]),
